@@ -31,7 +31,7 @@ ASSUMPTIONS = [
     "reported in the evidence, not judged",
 ]
 NONTRIVIAL = ["cell"]
-DEADLINE = {"quick": 60, "thorough": 600}
+DEADLINE = {"quick": 90, "thorough": 600}
 
 MACH = {"md5": "md5", "sha": "sha1", "sha256": "sha256", "sha384": "sha384"}
 LENS = [1, 15, 16, 17, 100]
